@@ -10,7 +10,8 @@
 #include "common.h"
 #include <time.h>
 
-enum { K_U0, K_U1, K_X };               /* waiter / signaller kinds */
+enum { K_U0, K_U1, K_X, K_US };         /* waiter / signaller kinds; K_US: a ULT in
+                                         * a pool shared by two extra streams */
 enum { D_NONE, D_1, D_2, D_PAST };      /* deadline selector */
 enum { A_END = 0, A_SIG, A_BCAST };
 
@@ -88,6 +89,14 @@ static const cfg_t cfgs[] = {
     { "X:D1 + U1:none + X:none | X: sig, sig(after w0)", 0, 3,
       { { K_X, D_1, -1 }, { K_U1, D_NONE, -1 }, { K_X, D_NONE, -1 } }, K_X,
       { { A_SIG, -1 }, { A_SIG, 0 } } },
+    /* ULT waiters in a pool served by two streams: the yield-polling timed
+     * waiter is resumed on another stream than the one it started to wait on */
+    { "US:D1 | X: sig (pool shared by 2 streams)", 1, 1,
+      { { K_US, D_1, -1 } }, K_X, { { A_SIG, -1 } } },
+    { "US:D1 + US:none | X: sig (pool shared by 2 streams)", 0, 2,
+      { { K_US, D_1, -1 }, { K_US, D_NONE, -1 } }, K_X, { { A_SIG, -1 } } },
+    { "US:D1 + US:D2 | US: - (pool shared by 2 streams)", 0, 2,
+      { { K_US, D_1, -1 }, { K_US, D_2, -1 } }, K_US, { { A_END, -1 } } },
 };
 
 /* ---- event log (appended under M) */
@@ -285,6 +294,20 @@ static void scenario(int cfg)
         OK(ABT_xstream_create(ABT_SCHED_NULL, &es1));
     ABT_pool p0 = h_main_pool(h_self_xstream());
     ABT_pool p1 = need_es1 ? h_main_pool(es1) : ABT_POOL_NULL;
+    int need_shared = C->skind == K_US;
+    for (int w = 0; w < C->nw; w++)
+        if (C->w[w].kind == K_US)
+            need_shared = 1;
+    ABT_pool ps = ABT_POOL_NULL;
+    ABT_xstream esa = ABT_XSTREAM_NULL, esb = ABT_XSTREAM_NULL;
+    if (need_shared) {
+        ABT_sched sa, sb;
+        OK(ABT_pool_create_basic(ABT_POOL_FIFO, ABT_POOL_ACCESS_MPMC, ABT_TRUE, &ps));
+        OK(ABT_sched_create_basic(ABT_SCHED_BASIC, 1, &ps, ABT_SCHED_CONFIG_NULL, &sa));
+        OK(ABT_sched_create_basic(ABT_SCHED_BASIC, 1, &ps, ABT_SCHED_CONFIG_NULL, &sb));
+        OK(ABT_xstream_create(sa, &esa));
+        OK(ABT_xstream_create(sb, &esb));
+    }
 
     abtmc_window_begin();
     ABT_thread th[5] = { ABT_THREAD_NULL, ABT_THREAD_NULL, ABT_THREAD_NULL,
@@ -297,8 +320,8 @@ static void scenario(int cfg)
         if (kind == K_X)
             xt[i] = abtmc_thread_create(fn, arg);
         else
-            OK(ABT_thread_create(kind == K_U0 ? p0 : p1, fn, arg,
-                                 ABT_THREAD_ATTR_NULL, &th[i]));
+            OK(ABT_thread_create(kind == K_U0 ? p0 : kind == K_U1 ? p1 : ps, fn,
+                                 arg, ABT_THREAD_ATTR_NULL, &th[i]));
     }
     /* the primary ULT must not block its OS thread while ULT actors on its
      * own stream still have work to do: poll with a yield */
@@ -368,6 +391,12 @@ static void scenario(int cfg)
     if (need_es1) {
         OK(ABT_xstream_join(es1));
         OK(ABT_xstream_free(&es1));
+    }
+    if (need_shared) {
+        OK(ABT_xstream_join(esa));
+        OK(ABT_xstream_join(esb));
+        OK(ABT_xstream_free(&esa));
+        OK(ABT_xstream_free(&esb));
     }
     h_finalize();
     abtmc_check(abtmc_ledger_live() == 0, "leak",
